@@ -365,6 +365,25 @@ def decode_loop(ctx):
     if r.invariant_violated != "OnceEach":
         raise tlc.MachineryError("DecodeLoop: the re-processing hazard is not reachable in the model (vacuous poison configuration)\n" + r.out[-1500:])
     ctx.extra["decode_loop_hazard_reprocessing_reachable_in_model"] = True
+    if not ctx.quick:
+        # unbounded: the TLAPS proof of PublishAfterProcessing + type invariant for any NB / Poison (spec/DecodeLoopProofs.tla)
+        import shutil
+        import subprocess
+        pd = os.path.join(ctx.tmp, "tlaps")
+        os.makedirs(pd, exist_ok=True)
+        for f in ("DecodeLoop.tla", "DecodeLoopProofs.tla"):
+            shutil.copy(os.path.join(tlc.SPEC_DIR, f), pd)
+        try:
+            p = subprocess.run(["tlapm", "DecodeLoopProofs.tla"], cwd=pd, stdout=subprocess.PIPE, stderr=subprocess.STDOUT, text=True, timeout=1800)
+            out = p.stdout
+        except (subprocess.TimeoutExpired, FileNotFoundError) as ex:
+            out = "tlapm unavailable: %s" % ex
+        import re
+        m = re.search(r"All (\d+) obligations proved", out)
+        if not m:
+            raise tlc.MachineryError("TLAPS proof of DecodeLoopProofs did not go through:\n" + out[-1500:])
+        ctx.extra["decode_loop_tlaps_obligations_proved"] = int(m.group(1))
+        shutil.rmtree(pd, ignore_errors=True)
     # B: one schedule per transition of the complete state graph + behaviours simulated by TLC, stepped through the real Decode.run
     V = []
     nsched = {"edge_cover": 0, "simulated": 0}
